@@ -17,17 +17,9 @@ open Clvm Clvm.Alloc
 /-- the caps of the statement (62,500,000) are the ones the code declares -/
 theorem caps_values : Gen.maxNumAtoms = 62500000 ∧ Gen.maxNumPairs = 62500000 := by decide
 
+/-- a fresh allocator satisfies the invariant (heap part: `limit ≥ 1`, the initial ghost heap) -/
 theorem inv_new (limit : Nat) (a0 : Alloc) (h : newLimited limit = .ok a0) (hl : Gen.initGhostHeap ≤ limit) :
-    Inv a0 ∧ HeapOk a0 := by
-  unfold newLimited at h
-  split at h
-  · cases h
-  · next hle =>
-    cases h
-    refine ⟨⟨Closed.nil _, ?_, ?_, ?_⟩, hl⟩
-    · show ([] : List (Nat × Nat)).length + Gen.initGhostAtoms ≤ Gen.maxNumAtoms; decide
-    · show ([] : List (Ptr × Ptr)).length + Gen.initGhostPairs ≤ Gen.maxNumPairs; decide
-    · show limit ≤ u32Max; omega
+    Inv a0 ∧ HeapOk a0 := inv_newLimited limit a0 h hl
 
 /-- `new_limited` panics above 4 GiB -/
 theorem new_limited_panics (limit : Nat) (h : limit > u32Max) : ∃ m, newLimited limit = .error (.Panic m) := by
@@ -132,31 +124,6 @@ theorem fail_unchanged_concat (a : Alloc) (newSize : Nat) (ps : List Ptr) (hI : 
 
 /-! ### `fail_exact` -/
 
-theorem kind_oom {e : Err} (h : e.kind = Err.OutOfMemory.kind) : e = .OutOfMemory := by
-  cases e <;> first | rfl | (simp [Err.kind] at h)
-
-theorem kind_atoms {e : Err} (h : e.kind = Err.TooManyAtoms.kind) : e = .TooManyAtoms := by
-  cases e <;> first | rfl | (simp [Err.kind] at h)
-
-theorem kind_pairs {e : Err} (h : e.kind = Err.TooManyPairs.kind) : e = .TooManyPairs := by
-  cases e <;> first | rfl | (simp [Err.kind] at h)
-
-theorem refines_error {a : Alloc} {out : Out Ptr} {ref : Except Err (Tree × RefAlloc)} {e' : Err}
-    (h : Refines a out ref) (hr : ref = .error e') : ∃ e, out = (.error e, a) ∧ e.kind = e'.kind := by
-  subst hr
-  obtain ⟨res, a'⟩ := out
-  cases res with
-  | ok p => exact absurd h (by simp [Refines])
-  | error e => exact ⟨e, by rw [show a' = a from h.2], h.1⟩
-
-theorem refines_ok {a : Alloc} {out : Out Ptr} {ref : Except Err (Tree × RefAlloc)} {x : Tree × RefAlloc}
-    (h : Refines a out ref) (hr : ref = .ok x) : ∃ p a', out = (.ok p, a') := by
-  subst hr
-  obtain ⟨res, a'⟩ := out
-  cases res with
-  | ok p => exact ⟨p, a', rfl⟩
-  | error e => exact absurd h (by simp [Refines])
-
 /-- `new_atom`: `OutOfMemory` iff the bytes do not fit below the heap limit; otherwise
 `TooManyAtoms` iff the atom count is at its cap; otherwise it succeeds -/
 theorem new_atom_fail_exact (a : Alloc) (b : Bytes) (hI : Inv a) :
@@ -260,12 +227,6 @@ def HeapCap : Prop :=
     (Session.init a0).run ops = .ok (sf, ts) →
     atomCount sf.a ≤ Gen.maxNumAtoms ∧ pairCount sf.a ≤ Gen.maxNumPairs ∧ heapSize sf.a ≤ limit
 
-theorem heapLimit_new (limit : Nat) (a0 : Alloc) (h : newLimited limit = .ok a0) : a0.heapLimit = limit := by
-  unfold newLimited at h
-  split at h
-  · cases h
-  · cases h; rfl
-
 /-- … holds (together with the validity of every published node and checkpoint, `SInv`) for every
 history none of whose steps is in the defect region of finding C -/
 theorem heap_cap_partial (limit : Nat) (a0 : Alloc) (ops : List Op) (sf : Session)
@@ -276,28 +237,11 @@ theorem heap_cap_partial (limit : Nat) (a0 : Alloc) (ops : List Op) (sf : Sessio
   have ⟨hI, hH⟩ := inv_new limit a0 h0 hl
   have hS := run_sinv ops _ (SInv.init a0 hI hH) hw hd sf ts h
   refine ⟨hS, hS.inv.atomCap, hS.inv.pairCap, ?_⟩
-  have hlim : ∀ (ops : List Op) (s sf : Session) (ts : List (Tag × Nat × Nat × Nat)), SInv s →
-      (∀ op ∈ ops, op.wf) → NoDefect s ops → s.run ops = .ok (sf, ts) → sf.a.heapLimit = s.a.heapLimit := by
-    intro ops
-    induction ops with
-    | nil => intro s sf ts _ _ _ h; simp only [Session.run] at h; cases h; rfl
-    | cons op ops ih =>
-      intro s sf ts hS hw hd h
-      obtain ⟨s1, t, ts', h1, h2, _⟩ := run_cons s op ops sf ts h
-      have hf := step_facts s hS op (hw op (by simp)) hd.1 s1 t h1
-      rw [ih s1 sf ts' hf.sinv (fun o ho => hw o (by simp [ho])) (hd.2 s1 t h1) h2]
-      have hc := congrArg RefAlloc.heapLimit hf.counts
-      have : ∀ (r : RefAlloc) (s : Session) (op : Op) (t : Tag), (r.after s op t).heapLimit = r.heapLimit := by
-        intro r s op t
-        unfold RefAlloc.after
-        cases t <;> cases op <;> simp only [RefAlloc.bump] <;> (try split) <;> rfl
-      rw [this] at hc
-      exact hc
   have := hS.heap
   unfold HeapOk at this
-  rw [hlim ops _ sf ts (SInv.init a0 hI hH) hw hd h] at this
+  rw [run_heapLimit ops _ sf ts (SInv.init a0 hI hH) hw hd h] at this
   show sf.a.u8.length + sf.a.ghostHeap ≤ limit
-  rw [← heapLimit_new limit a0 h0]
+  rw [← heapLimit_newLimited limit a0 h0]
   exact this
 
 /-- `new_limited(3); new_small_number(128); new_substr(#0, 0, 1)` ends with heap size 4 -/
